@@ -76,7 +76,12 @@ func evPointsExt(t *Tracer, w Win, ps []Pt, h, v int64) {
 func evPointNudge(t *Tracer, w Win, p Pt, du, da, h, v int64) {
 	lon, lat, alt := w.realPoint(p)
 	if alt == 0 {
-		da = 0 // one step from zero is a subnormal number of metres: not claimed
+		// one step from zero is a subnormal number of metres: not claimed; but zero has a sign, and
+		// negative zero (what rounding a small negative height gives) is still altitude 0
+		if da == -1 {
+			alt = math.Copysign(0, -1)
+		}
+		da = 0
 	}
 	edge := lon == 180
 	nudge := func(x float64, d int64) float64 {
@@ -768,7 +773,7 @@ func evPointsReal(t *Tracer, w Win, lons, lats, alts []float64, h, v int64) {
 
 var specialLons = []float64{0, 1, -1, 10, 45, -45, 90, -90, 100, 135, -135, 139, 139.7, -0.5, 179, -179, -180, 60, -120, 30.48}
 var specialLats = []float64{0, 1, -1, 10, 35, 35.68, 45, -45, 60, -60, 80, 85, -85, 0.5, 66.5, 23.4}
-var specialAlts = []float64{0, 0.5, -0.5, 1, 10, 30.48, 100, 304.8, 1000, -10, 8848, 0.3048, 152.4, 12.5}
+var specialAlts = []float64{math.Copysign(0, -1), 0, 0.5, -0.5, 1, 10, 30.48, 100, 304.8, 1000, -10, 8848, 0.3048, 152.4, 12.5}
 var hairs = []float64{0, 0, 1e-12, -1e-12, 1e-10, -1e-10, 1e-9, -1e-9, 1e-8, -1e-8, 1e-7, -1e-7, 1e-6, -1e-6, 1e-5, -1e-4, 1e-3}
 
 func (r Rng) realCoord3() (lon, lat, alt float64) {
